@@ -99,6 +99,23 @@ static void biprop(dispenso::BiPropNode& a, dispenso::BiPropNode& b) {
   a.biPropDependsOn(b);
 }
 
+// ---- graph moves (ops M / m) ----
+template <typename G>
+__attribute__((noinline)) static void moveRoundTripAssign(G& g) {
+  G tmp;
+  tmp = std::move(g);
+  g = std::move(tmp);
+}
+template <typename G>
+__attribute__((noinline)) static void moveRoundTripConstruct(G& g) {
+  G tmp(std::move(g));
+  g = std::move(tmp);
+}
+__attribute__((noinline)) static void scrubStack() {
+  volatile char buf[32768];
+  for (size_t i = 0; i < sizeof(buf); ++i) buf[i] = 0;
+}
+
 template <class G>
 static void runCase(std::istringstream& in, std::ostream& os) {
   using N = typename G::NodeType;
@@ -199,7 +216,13 @@ static void runCase(std::istringstream& in, std::ostream& os) {
       for (const Rec& r : recs) os << " " << r.id << ":" << r.s << ":" << r.f;
       os << " | ";
       dumpCnt();
-    } else if (op == "S") {
+    } else if (op == "S" || op == "M" || op == "m") {
+      // M / m: move the whole graph away and back (M: two move assignments; m: move construction + move assignment) in a deeper stack
+      // frame, overwrite that dead frame, then dump: nodes keep their addresses, so the structure must read exactly as before, and every
+      // later op (clear() walks graph_->subgraphs_) works on the moved-to object
+      if (op == "M") moveRoundTripAssign(g);
+      if (op == "m") moveRoundTripConstruct(g);
+      if (op != "S") scrubStack();
       sep();
       os << "G";
       bool firstSg = true;
